@@ -39,9 +39,11 @@ def wv(mode, x):
 # --------------------------------------------------------------------------- query points
 
 
-def grid_points(h, n):
-    """Dense grid over [min, max], every centre, both ends, just inside/outside the ends."""
-    lo, hi = float(h.min), float(h.max)
+def grid_points(h, n, lo=None, hi=None):
+    """Dense grid over [min, max], every centre, both ends, just inside/outside the ends.  `lo` / `hi`: the range
+    the round is judged against (the true extremes of the inserted values when they are known) — by default
+    what the histogram reports."""
+    lo, hi = float(h.min if lo is None else lo), float(h.max if hi is None else hi)
     xs = {lo, hi}
     for i in range(n + 1):
         xs.add(lo + (hi - lo) * i / n)
@@ -86,9 +88,9 @@ def rank_levels(h):
     return sorted(q for q in qs if 0.0 <= q <= 1.0)
 
 
-def count_branch(h, x):
+def count_branch(h, x, lo=None, hi=None):
     """Which branch of count_at answers the exact query point x (measured for the evidence)."""
-    lo, hi = exact(h.min), exact(h.max)
+    lo, hi = exact(h.min) if lo is None else lo, exact(h.max) if hi is None else hi
     if x < lo or x > hi:
         return "outside"
     if x == lo:
@@ -139,14 +141,15 @@ def left_values(lo, v0, f0, pts, flags):
 
 
 
-def check_count_at(mode, h, xs, rs, total):
-    """xs sorted query points (exact), rs the implementation's results (exact or None).
+def check_count_at(mode, h, xs, rs, total, lo=None, hi=None):
+    """xs sorted query points (exact), rs the implementation's results (exact or None); `lo`, `hi`, `total`: the range
+    and the total the answers are judged against (default: what the histogram reports).
 
     Returns (clause, detail) or None.  Points of the left tail (min < x <= first centre) are
     judged separately (`left_tail: True` in the detail — open finding C14-K01) and never hide a
     failure elsewhere: the monotone chain of the other points skips them, and a failure outside
     the left tail is reported in preference."""
-    lo, hi = exact(h.min), exact(h.max)
+    lo, hi = exact(h.min) if lo is None else lo, exact(h.max) if hi is None else hi
     v0, f0 = exact(h.bins[0][0]), int(h.bins[0][1])
     tol = TOL * total
     in_left = lambda x: lo < x <= v0
@@ -192,8 +195,8 @@ def check_count_at(mode, h, xs, rs, total):
     return left_fail
 
 
-def check_quantile(mode, h, qs, rs):
-    lo, hi = exact(h.min), exact(h.max)
+def check_quantile(mode, h, qs, rs, lo=None, hi=None):
+    lo, hi = exact(h.min) if lo is None else lo, exact(h.max) if hi is None else hi
     scale = max(abs(lo), abs(hi), Fraction(1, 10**300))
     tol = TOL * scale
     prev = None
@@ -258,6 +261,109 @@ class Res:
     pass
 
 
+def all_rank_levels(h, limit=300):
+    """Every integer rank of a small histogram (r / total and (r + 1/2) / total): the quantile estimate then visits every
+    segment between two centres, so a centre outside the reported range cannot stay unseen."""
+    total = sum(int(f) for _, f in h.bins)
+    if total <= 0:
+        return []
+    ranks = range(total + 1) if total <= limit else list(range(limit // 2)) + list(range(total - limit // 2, total + 1))
+    qs = set()
+    for r in ranks:
+        qs.add(r / total)
+        if r < total:
+            qs.add((r + 0.5) / total)
+    return sorted(q for q in qs if 0.0 <= q <= 1.0)
+
+
+def state_defect(mode, h):
+    """Is what the histogram reports consistent with its bins?  (The precondition of every estimator clause — on the
+    unchanged tree C13's theorems give it for every object update / + / bulkload / load return or leave behind.)
+    Returns a description or None."""
+    if not h.bins:
+        return None
+    if h.min is None or h.max is None:
+        return "the histogram holds values but reports no %s" % ("minimum" if h.min is None else "maximum")
+    lo, hi = exact(h.min), exact(h.max)
+    cents = [exact(v) for v, _ in h.bins]
+    if hi < lo:
+        return "the reported maximum is below the reported minimum"
+    if any(not a < b for a, b in zip(cents, cents[1:])):
+        return "bin centres are not strictly increasing"
+    if any(not int(f) > 0 for _, f in h.bins):
+        return "a bin has a non-positive count"
+    if cents[0] < lo or cents[-1] > hi:
+        return "a bin centre lies outside the reported [min, max]"
+    return None
+
+
+def query_round(mode, D, h, case, res, reg, truth=None, every_rank=False):
+    """One round of queries on a non-empty histogram object.  The answers are judged against `truth` = (lo, hi, total)
+    — the true extremes and number of the values that went into the object, exact — when it is known, else against what
+    the object reports.  Returns (bad, left_only): bad = (clause, detail) or None; left_only = the failure involves
+    only count_at's left tail (open finding C14-K01).  Appends the model line to res.items when nothing failed hard."""
+    if truth is not None:
+        lo, hi, total = truth
+    else:
+        if h.min is None or h.max is None:
+            return ("state: " + state_defect(mode, h), {"reg": reg, "bins": [[float(v), int(f)] for v, f in h.bins][:8]}), False
+        lo, hi, total = exact(h.min), exact(h.max), Fraction(sum(int(f) for _, f in h.bins))
+    lo_f, hi_f = float(lo), float(hi)
+    xs_f = sorted(set(grid_points(h, case.get("grid", 16), lo_f, hi_f) + [float(x) for x in case.get("xs", [])]))
+    qs_f = sorted(set(level_points(case.get("levels", 16)) + rank_levels(h) + (all_rank_levels(h) if every_rank else [])
+                      + [float(q) for q in case.get("qs", [])]))
+    told = {"judged_against": "the inserted values" if truth is not None else "what the histogram reports",
+            "reported": [None if h.min is None else float(h.min), None if h.max is None else float(h.max), int(sum(int(f) for _, f in h.bins))]}
+    try:
+        xs, cs, qs, rs = eval_hist(mode, D, h, xs_f, qs_f)
+    except Exception as e:
+        d = {"error": repr(e)[:200], "reg": reg, "min": lo_f, "max": hi_f}
+        d.update(told)
+        return ("raised: estimator raised %s" % type(e).__name__, d), False
+    exs = [Fraction(x) for x in xs]
+    for x in exs:
+        k = "count_at branch: " + count_branch(h, x, lo, hi)
+        res.branches[k] = res.branches.get(k, 0) + 1
+    for q in qs:
+        k = "quantile branch: " + quantile_branch(h, Fraction(q))
+        res.branches[k] = res.branches.get(k, 0) + 1
+    bad_c = check_count_at(mode, h, exs, cs, total, lo, hi)
+    bad_q = check_quantile(mode, h, [Fraction(q) for q in qs], rs, lo, hi)
+    left_only = bad_c is not None and bool(bad_c[1].get("left_tail")) and bad_q is None
+    bad = bad_q if (bad_c is None or (bad_c[1].get("left_tail") and bad_q is not None)) else bad_c
+    if bad is None:
+        sd = state_defect(mode, h)
+        if sd is not None:
+            bad = ("state: " + sd, {})
+    if bad is not None:
+        bad[1]["reg"] = reg
+        bad[1]["bins"] = [[float(v), int(f)] for v, f in h.bins][:8]
+        bad[1]["min"], bad[1]["max"] = lo_f, hi_f
+        bad[1].update(told)
+        if not left_only:
+            return bad, False
+    if h.min is None or h.max is None:
+        return bad, left_only
+    line = model_eval_line(mode, [(v, int(f)) for v, f in h.bins], h.min, h.max, xs, qs, int(total))
+    scale_q = max(abs(lo), abs(hi))
+    # after dump() the bins are numpy.float128 and the model is fed their float64 roundings: a query within
+    # rounding distance of the first centre (where the left tail as it exists jumps) may fall on the other side
+    f128 = any(type(v).__name__ == "longdouble" for v, _ in h.bins)
+    skip = set()
+    if f128:
+        tiny = Fraction(1, 10**300)
+        cents = [exact(v) for v, _ in h.bins]
+        inexact = [c for c in cents if Fraction(float(c)) != c]
+        # two centres that coincide (or nearly) once rounded to float64: the model's input is no longer a
+        # faithful image of the histogram -> the queries are judged by the oracle only
+        if any(cents[i + 1] - cents[i] <= TOL * max(abs(cents[i]), abs(cents[i + 1]), tiny) for i in range(len(cents) - 1)):
+            res.items_skipped = getattr(res, "items_skipped", 0) + 1
+            return bad, left_only
+        skip = {i for i, x in enumerate(exs) if any(abs(x - c) <= TOL * max(abs(c), tiny) for c in inexact)}
+    res.items.append((reg, line, cs, rs, total, scale_q, xs, qs, skip))
+    return bad, left_only
+
+
 def run_hist_case(case):
     """Returns Res with .fail (clause, detail) or None, and the model lines + expected values."""
     import numpy  # noqa
@@ -270,15 +376,13 @@ def run_hist_case(case):
     res.c13_failed = out.fail is not None
     res.c13_clause = out.fail[0] if out.fail else None
     res.branches = {}
-    if out.fail is not None:
-        # the histogram itself violates C13: that is C13's report, not C14's
-        return res
     with c13.Patched(mode) as D:
         regs = case.get("regs")
         for r in sorted(out.hists):
             if regs is not None and r not in regs:
                 continue
             h = out.hists[r]
+            L = out.ledgers.get(r)
             if not h.bins:
                 # empty histogram: both estimators are None everywhere
                 got = [D.count_at(h, to_query(mode, 0.0)), D.quantile(h, to_query(mode, 0.5))]
@@ -286,49 +390,282 @@ def run_hist_case(case):
                     res.fail = ("empty: estimator of an empty histogram is not None", {"got": repr(got)})
                     return res
                 continue
-            xs_f = sorted(set(grid_points(h, case.get("grid", 16)) + [float(x) for x in case.get("xs", [])]))
-            qs_f = sorted(set(level_points(case.get("levels", 16)) + rank_levels(h) + [float(q) for q in case.get("qs", [])]))
-            try:
-                xs, cs, qs, rs = eval_hist(mode, D, h, xs_f, qs_f)
-            except Exception as e:
-                res.fail = ("raised: estimator raised %s" % type(e).__name__, {"error": repr(e)[:200], "reg": r})
-                return res
-            total = Fraction(sum(int(f) for _, f in h.bins))
-            exs = [Fraction(x) for x in xs]
-            for x in exs:
-                res.branches["count_at branch: " + count_branch(h, x)] = res.branches.get("count_at branch: " + count_branch(h, x), 0) + 1
-            for q in qs:
-                k = "quantile branch: " + quantile_branch(h, Fraction(q))
-                res.branches[k] = res.branches.get(k, 0) + 1
-            bad_c = check_count_at(mode, h, exs, cs, total)
-            bad_q = check_quantile(mode, h, [Fraction(q) for q in qs], rs)
-            left_only = bad_c is not None and bad_c[1].get("left_tail") and bad_q is None
-            bad = bad_q if (bad_c is None or (bad_c[1].get("left_tail") and bad_q is not None)) else bad_c
+            # the estimators are judged against the values that really went in (C13's ledger: exact extremes and weight);
+            # after the bare merge() the bounds are only known to lie within the true range -> what the histogram reports
+            truth = None
+            if L is not None and not L.bare and L.weight > 0 and L.lo is not None:
+                truth = (L.lo, L.hi, Fraction(L.weight))
+            if res.c13_failed and truth is None:
+                continue  # the histogram violates C13 and nothing independent is known about it: C13's report
+            n_items = len(res.items)
+            bad, left_only = query_round(mode, D, h, case, res, r, truth)
+            if res.c13_failed:
+                # the histogram itself violates C13 (that is C13's report); C14 reports what the *estimators* then do
+                # against the inserted values — and nothing when they still satisfy every clause
+                del res.items[n_items:]
+                if bad is not None and not left_only and not bad[0].startswith("state:"):
+                    bad[1]["c13_clause"] = res.c13_clause
+                    res.fail = bad
+                    return res
+                continue
             if bad is not None and (res.fail is None or not left_only):
-                bad[1]["reg"] = r
-                bad[1]["bins"] = [[float(v), int(f)] for v, f in h.bins][:8]
-                bad[1]["min"], bad[1]["max"] = float(h.min), float(h.max)
                 res.fail = bad
                 if not left_only:
                     return res
-            line = model_eval_line(mode, [(v, int(f)) for v, f in h.bins], h.min, h.max, xs, qs, int(total))
-            scale_q = max(abs(exact(h.min)), abs(exact(h.max)))
-            # after dump() the bins are numpy.float128 and the model is fed their float64 roundings: a query within
-            # rounding distance of the first centre (where the left tail as it exists jumps) may fall on the other side
-            f128 = any(type(v).__name__ == "longdouble" for v, _ in h.bins)
-            skip = set()
-            if f128:
-                tiny = Fraction(1, 10**300)
-                cents = [exact(v) for v, _ in h.bins]
-                inexact = [c for c in cents if Fraction(float(c)) != c]
-                # two centres that coincide (or nearly) once rounded to float64: the model's input is no longer a
-                # faithful image of the histogram -> the queries are judged by the oracle only
-                if any(cents[i + 1] - cents[i] <= TOL * max(abs(cents[i]), abs(cents[i + 1]), tiny) for i in range(len(cents) - 1)):
-                    res.items_skipped = getattr(res, "items_skipped", 0) + 1
-                    continue
-                skip = {i for i, x in enumerate(exs) if any(abs(x - c) <= TOL * max(abs(c), tiny) for c in inexact)}
-            res.items.append((r, line, cs, rs, total, scale_q, xs, qs, skip))
     return res
+
+
+# --------------------------------------------------------------------------- sequences on histogram objects
+
+
+class Truth:
+    """What went into one histogram *object*, in exact arithmetic: extremes and number of the inserted values."""
+
+    def __init__(self):
+        self.lo = self.hi = None
+        self.total = 0
+
+    def put(self, v, c):
+        v = exact(v)
+        self.lo = v if self.lo is None or v < self.lo else self.lo
+        self.hi = v if self.hi is None or v > self.hi else self.hi
+        self.total += int(c)
+
+    def absorb(self, o):
+        if o.lo is not None:
+            self.lo = o.lo if self.lo is None or o.lo < self.lo else self.lo
+            self.hi = o.hi if self.hi is None or o.hi > self.hi else self.hi
+        self.total += o.total
+
+    def copy(self):
+        t = Truth()
+        t.lo, t.hi, t.total = self.lo, self.hi, self.total
+        return t
+
+    def triple(self):
+        return (self.lo, self.hi, Fraction(self.total))
+
+
+def run_hseq_case(case):
+    """A sequence on histogram *objects* (registers name objects; an object can have several names).
+
+    `["new", r, cap]`, `["upd", r, v, c]` (plain `update()`), `["add", dst, a, b]` (`dst = a + b`; `a` and `b` keep naming
+    the operand objects, which are queried again afterwards), `["q", r]` (a round of count_at / quantile queries).
+    Every round is judged against the values that really went into the object — their true minimum, maximum and number,
+    kept here, not read off the histogram — when that is known: for an object built by updates, and for the object a `+`
+    returns.  An operand a `+` did not return is judged by what it reports itself (`min`, `max`, `count`) together with
+    the consistency of those reports with its bins: whether `+` works in place or on a copy is the implementation's
+    choice, that every object it leaves behind satisfies the property is not."""
+    mode = case["mode"]
+    res = Res()
+    res.fail = None
+    res.items = []
+    res.c13_failed = False
+    res.branches = {}
+    res.hits = []
+    mops, rounds = [], []
+    left_fail = None
+    with c13.Patched(mode) as D:
+        objs = {}  # register -> object
+        truth = {}  # id(object) -> Truth, or None when only the object's own reports are known
+        keep = []  # every object stays alive: ids are not reused
+        wide = set()  # ids of objects whose bins went through dump() in float mode (numpy.float128 centres): the model's own
+        #               float64 object is no faithful image of them -> oracle and state-fed correspondence only
+        for k, op in enumerate(case["prog"]):
+            kind = op[0]
+            try:
+                if kind == "new":
+                    h = D.Distogram(op[2])
+                    keep.append(h)
+                    objs[op[1]] = h
+                    truth[id(h)] = Truth()
+                    mops.append(["new", op[1], op[2]])
+                elif kind == "upd":
+                    h = objs[op[1]]
+                    v = c13.vin(mode, op[2])
+                    h2 = D.update(h, v, op[3])
+                    if h2 is not h:
+                        keep.append(h2)
+                        truth[id(h2)] = truth.get(id(h))
+                        objs[op[1]] = h2
+                    if truth.get(id(h2)) is not None:
+                        truth[id(h2)].put(v, op[3])
+                    mops.append(["upd", op[1], c13.vwire(mode, v), c13.vwire(mode, op[3])])
+                elif kind == "add":
+                    a, b = objs[op[2]], objs[op[3]]
+                    ta, tb = truth.get(id(a)), truth.get(id(b))
+                    new = a + b
+                    keep.append(new)
+                    t = None
+                    if ta is not None and tb is not None:
+                        t = ta.copy()
+                        t.absorb(tb)
+                    if new is not a:
+                        # the left operand is another object than the sum: what it holds now is its own business
+                        truth[id(a)] = None
+                        res.hits.append("hseq: + returned a new object")
+                    else:
+                        res.hits.append("hseq: + returned its left operand")
+                    truth[id(new)] = t
+                    objs[op[1]] = new
+                    if id(a) in wide or id(b) in wide:
+                        wide.update([id(new), id(a)])
+                    mops.append(["add", op[1], op[2], op[3]])
+                elif kind == "bulk":
+                    h = objs[op[1]]
+                    arr, tail, ins, lo_b, hi_b, path = c13.bulk_parts(mode, op[2], op[3], int(h._bin_count), c13.gen_const("distogram.bulk_factor", 5))
+                    h.bulkload(arr)
+                    if truth.get(id(h)) is not None:
+                        for v in arr.tolist():
+                            truth[id(h)].put(v, 1)
+                    res.hits.append("hseq: bulkload (%s the direct-insert threshold)" % path)
+                    mops.append([tail[0], op[1]] + tail[1:])
+                elif kind == "dl":
+                    src = objs[op[2]]
+                    d = src.dump()
+                    new = D.load(d["bins"], d["min"], d["max"])
+                    keep.append(new)
+                    truth[id(new)] = None if truth.get(id(src)) is None else truth[id(src)].copy()
+                    objs[op[1]] = new
+                    if mode == "f":
+                        wide.update([id(new), id(src)])
+                    res.hits.append("hseq: dump() + load()")
+                    mops.append(["dl", op[1], op[2]])
+                elif kind == "q":
+                    h = objs[op[1]]
+                    t = truth.get(id(h))
+                    if not h.bins:
+                        got = [D.count_at(h, to_query(mode, 0.0)), D.quantile(h, to_query(mode, 0.5))]
+                        if any(g is not None for g in got) or (t is not None and t.total != 0):
+                            res.fail = ("empty: estimator of an empty histogram is not None" if t is None or t.total == 0 else
+                                        "state: the histogram holds no bin although values were inserted", {"got": repr(got), "op": k})
+                            return res
+                        res.hits.append("hseq: round on an empty histogram")
+                        continue
+                    n_items = len(res.items)
+                    tr = t.triple() if t is not None and t.total > 0 else None
+                    res.hits.append("hseq: round judged against %s" % ("the inserted values" if tr is not None else "the object's own reports"))
+                    bad, left_only = query_round(mode, D, h, case, res, op[1], tr, every_rank=True)
+                    if bad is not None:
+                        bad[1]["op"] = k
+                        if not left_only:
+                            res.fail = bad
+                            return res
+                        left_fail = left_fail or bad
+                    # the same round on the model's own object (Drv/C14.lean `hseq`): it ran the same operations from scratch
+                    if id(h) in wide:
+                        res.hits.append("hseq: round on an object with float128 centres (not compared with the model's own object)")
+                    for it in ([] if id(h) in wide else res.items[n_items:]):
+                        rounds.append((k, it))
+                        mops.append(["q", op[1], [wv(mode, x) for x in it[6]], [wv(mode, q) for q in it[7]]])
+                else:
+                    raise InfraError("bad op %r" % (op,))
+            except InfraError:
+                raise
+            except Exception as e:
+                res.fail = ("raised: %s on a histogram raised %s" % ({"upd": "update()", "add": "+", "new": "Distogram()", "q": "an estimator", "dl": "dump() / load()", "bulk": "bulkload()"}.get(kind, kind), type(e).__name__),
+                            {"error": repr(e)[:200], "op": k})
+                return res
+    res.fail = left_fail
+    if rounds:
+        res.hseq = ("C14 hseq " + wire.line(mode, mops), mops, rounds)
+    return res
+
+
+def valid_hseq(c):
+    prog = c.get("prog")
+    if c.get("mode") not in ("f", "q") or not isinstance(prog, list) or not prog or len(prog) > 400:
+        return False
+    regs = set()
+    alias = {}  # register -> object number, under in-place `+` (what the unchanged tree does): a + a is never formed
+    filled = set()  # object numbers that hold at least one value (dump() of an empty histogram raises by construction)
+    n = 0
+    for op in prog:
+        if not isinstance(op, list) or not op:
+            return False
+        k = op[0]
+        if k == "new":
+            if len(op) != 3 or not all(isinstance(x, int) and not isinstance(x, bool) for x in op[1:]) or not 2 <= op[2] <= 64 or not 0 <= op[1] < 32 or op[1] in regs:
+                return False
+            regs.add(op[1])
+            alias[op[1]] = n
+            n += 1
+        elif k == "upd":
+            if len(op) != 4 or op[1] not in regs or not isinstance(op[3], int) or isinstance(op[3], bool) or op[3] < 1 or not c13._valid_val(c["mode"], op[2]):
+                return False
+            filled.add(alias[op[1]])
+        elif k == "bulk":
+            if len(op) != 4 or op[1] not in regs or not isinstance(op[2], list) or not op[2] or len(op[2]) > 5000 or op[3] not in ("f8", "i8"):
+                return False
+            if not all(c13._valid_val(c["mode"], v) for v in op[2]) or (c["mode"] == "q" and len(set(map(repr, op[2]))) > 2 * 5):
+                return False
+            if op[3] == "i8" and not all(float(Fraction(*v) if isinstance(v, list) else v).is_integer() for v in op[2]):
+                return False
+            filled.add(alias[op[1]])
+        elif k == "dl":
+            if len(op) != 3 or not all(isinstance(x, int) and not isinstance(x, bool) for x in op[1:]) or op[2] not in regs or not 0 <= op[1] < 32 \
+                    or alias[op[2]] not in filled:
+                return False
+            regs.add(op[1])
+            alias[op[1]] = n
+            filled.add(n)
+            n += 1
+        elif k == "add":
+            if len(op) != 4 or not all(isinstance(x, int) and not isinstance(x, bool) for x in op[1:]) or op[2] not in regs or op[3] not in regs or not 0 <= op[1] < 32:
+                return False
+            if alias[op[2]] == alias[op[3]]:
+                return False
+            if alias[op[3]] in filled:
+                filled.add(alias[op[2]])
+            regs.add(op[1])
+            alias[op[1]] = alias[op[2]]
+        elif k == "q":
+            if len(op) != 2 or op[1] not in regs:
+                return False
+        else:
+            return False
+    for key in ("grid", "levels"):
+        if key in c and (not isinstance(c[key], int) or isinstance(c[key], bool) or c[key] < 1):
+            return False
+    for key in ("xs", "qs"):
+        if key in c and not all(isinstance(x, (int, float)) and not isinstance(x, bool) and x == x and abs(x) != float("inf") for x in c[key]):
+            return False
+    return True
+
+
+def compare_hseq(ctx, c, r):
+    """Correspondence of an object sequence: the model (Drv/C14.lean `hseq`) ran the same operations on its own objects —
+    the faithful machine of Model/Distogram.lean, `+` in place or on a copy as the source says now — and answered the same
+    rounds from its own state."""
+    line, mops, rounds = r.hseq
+    mo = ctx.model.batch([line])[0]
+    if not mo.startswith("ok "):
+        raise InfraError("model rejected %r -> %r" % (line[:300], mo))
+    mouts = wire.dec_all(mo[3:])[0]
+    if len(mouts) != len(mops):
+        raise InfraError("model answered %d of %d operations" % (len(mouts), len(mops)))
+    mode = c["mode"]
+    qi = 0
+    for op, out in zip(mops, mouts):
+        if op[0] != "q":
+            if out != ["ok"]:
+                ctx.disagree(c, "ok", out, what="%s fails in the model (%r)" % (op[0], out))
+                return
+            continue
+        k, (reg, _line, cs, rs, total, scale_q, xs, qs, skip) = rounds[qi]
+        qi += 1
+        if out[0] != "q":
+            ctx.disagree(c, "a round of estimates", out, what="the model cannot answer the round of operation %d (%r)" % (k, out))
+            return
+        mc, mq = dec_vals(mode, out[1]), dec_vals(mode, out[2])
+        ctx.hit("count_at points", len(cs))
+        ctx.hit("quantile levels", len(rs))
+        for what, pts, impl, mod, scale in (("count_at", xs, cs, mc, total), ("quantile", qs, rs, mq, scale_q)):
+            for x, a, b in zip(pts, impl, mod):
+                if not close(a, b, scale):
+                    ctx.disagree(c, None if a is None else float(a), None if b is None else float(b),
+                                 what="%s differs from the model's own object at %r (operation %d, register %s)" % (what, float(x), k, reg))
+                    return
 
 
 def build_profile(values, typ="INTEGER"):
@@ -607,6 +944,8 @@ def valid_pseq(c):
 def run_case(case):
     if case.get("kind") == "pseq":
         return run_pseq_case(case)
+    if case.get("kind") == "hseq":
+        return run_hseq_case(case)
     return run_profile_case(case) if case.get("kind") == "profile" else run_hist_case(case)
 
 
@@ -617,6 +956,8 @@ def valid_case(c):
         return False
     if c.get("kind") == "pseq":
         return valid_pseq(c)
+    if c.get("kind") == "hseq":
+        return valid_hseq(c)
     if c.get("kind") == "profile":
         if "gen" in c:
             g = c["gen"]
@@ -688,11 +1029,13 @@ def evaluate(ctx, cases):
         ctx.hit("kind:" + kind)
         if kind in ("profile", "pseq"):
             ctx.hit("family:" + c.get("family", kind + ":?"))
-        if kind == "hist":
+        if kind in ("hist", "hseq"):
             ctx.hit("mode:" + c["mode"])
             ctx.hit("family:" + c.get("family", "?"))
             for k, n in sorted(getattr(r, "branches", {}).items()):
                 ctx.hit(k, n)
+            for k in getattr(r, "hits", []):
+                ctx.hit(k)
             if getattr(r, "items_skipped", 0):
                 ctx.hit("histogram with float128 centres that collide in float64 (oracle only)", r.items_skipped)
             if r.c13_failed:
@@ -720,7 +1063,7 @@ def evaluate(ctx, cases):
                     return False
                 return r2.fail is not None and _kind(r2.fail[0]) == k0 and r2.fail[0].split(":")[1][:12] == clause.split(":")[1][:12]
 
-            c_min = c if ctx.replaying else shrink(c, still, budget=8 if "gen" in c else ctx.scale(200, 500))
+            c_min = c if ctx.replaying else shrink(c, still, budget=8 if "gen" in c else ctx.scale(700, 1500) if kind == "hseq" else ctx.scale(400, 800))
             r2 = run_case(c_min)
             f = r2.fail or r.fail
             if not ctx.replaying and getattr(ctx, "_pending_stateful", None) is not None and kind != "pseq":
@@ -750,16 +1093,16 @@ def evaluate(ctx, cases):
             m = wire.dec_all(mo[3:])
             mc, mq, ma = dec_vals(mode, m[0]), dec_vals(mode, m[1]), dec_vals(mode, m[2])
             ctx.hit("count_at points", len(cs))
-            ctx.hit("quantile levels" if kind == "hist" else "profile probes", len(rs))
+            ctx.hit("quantile levels" if kind in ("hist", "hseq") else "profile probes", len(rs))
             dis = None
             for i, (x, a, b) in enumerate(zip(xs, cs, mc)):
                 if i in skip:
                     ctx.hit("count_at point next to an inexactly rounded centre of float128 bins (not compared)")
                     continue
                 if not close(a, b, total):
-                    dis = {"what": "count_at" if kind == "hist" else "estimate_values_below", "x": float(x), "impl": None if a is None else float(a), "model": None if b is None else float(b)}
+                    dis = {"what": "count_at" if kind in ("hist", "hseq") else "estimate_values_below", "x": float(x), "impl": None if a is None else float(a), "model": None if b is None else float(b)}
                     break
-            if dis is None and kind == "hist":
+            if dis is None and kind in ("hist", "hseq"):
                 for q, a, b in zip(qs, rs, mq):
                     if not close(a, b, scale_q):
                         dis = {"what": "quantile", "q": float(q), "impl": None if a is None else float(a), "model": None if b is None else float(b)}
@@ -772,6 +1115,9 @@ def evaluate(ctx, cases):
             if dis is not None:
                 ctx.disagree(c, dis["impl"], dis["model"], what="%s differs from the model at %r (register %s)" % (dis["what"], dis.get("x", dis.get("q")), reg))
                 break
+        else:
+            if kind == "hseq" and getattr(r, "hseq", None) is not None:
+                compare_hseq(ctx, c, r)
 
 
 def compare_pseq(ctx, c, mops, rounds, mouts):
@@ -989,6 +1335,267 @@ def random_pseq_case(ctx):
     return c
 
 
+# ---- histogram objects: plain update() streams in every order, operands queried again after a `+`
+
+
+def _scale_values(rng, ranks, fam):
+    """Distinct ranks 0..n-1 -> values of one family (order preserving)."""
+    if fam == "int":
+        off, step = rng.choice([0, 1, -3, 10, 1000]), rng.choice([1, 1, 2, 7])
+        return [float(off + step * r) for r in ranks]
+    if fam == "negative":
+        step = rng.choice([1, 3])
+        return [float(-1 - step * (max(ranks) - r)) - (0 if rng.random() < 0.5 else 40) for r in ranks]
+    if fam == "zero-max":
+        return [float(r - max(ranks)) for r in ranks]
+    if fam == "zero-min":
+        return [float(r - min(ranks)) for r in ranks]
+    if fam == "frac":
+        return [0.125 * r - 0.5 for r in ranks]
+    return [r * 1e6 + 0.5 for r in ranks]  # wide
+
+
+FAMILIES = ["int", "int", "negative", "zero-max", "zero-min", "frac", "wide"]
+
+
+def stream_order(rng, n, order):
+    """Ranks 0..n-1 in a named order (the largest rank first, the stream descending, ...)."""
+    r = list(range(n))
+    if order == "ascending":
+        return r
+    if order == "descending":
+        return r[::-1]
+    if order == "largest-first":
+        rest = r[:-1]
+        rng.shuffle(rest)
+        return [n - 1] + rest
+    if order == "smallest-first":
+        rest = r[1:]
+        rng.shuffle(rest)
+        return [0] + rest
+    if order == "largest-first-ascending":
+        return [n - 1] + r[:-1]
+    if order == "largest-then-descending-then-up":
+        return [n - 1] + r[: n // 2][::-1] + r[n // 2 : n - 1]
+    if order == "zigzag":
+        out, a, b = [], 0, n - 1
+        while a <= b:
+            out.append(b)
+            if a != b:
+                out.append(a)
+            a, b = a + 1, b - 1
+        return out
+    if order == "largest-last":
+        rest = r[:-1]
+        rng.shuffle(rest)
+        return rest + [n - 1]
+    rng.shuffle(r)
+    return r
+
+
+ORDERS = ["ascending", "descending", "largest-first", "smallest-first", "largest-first-ascending", "largest-then-descending-then-up",
+          "zigzag", "largest-last", "random"]
+
+
+def as_mode(case):
+    """Exact mode takes integers and [numerator, denominator] pairs: the float values of a generated program, exactly."""
+    if case["mode"] != "q":
+        return case
+    def qv(v):
+        if isinstance(v, list) or (isinstance(v, int) and not isinstance(v, bool)):
+            return v
+        f = Fraction(v)
+        return f.numerator if f.denominator == 1 else [f.numerator, f.denominator]
+    case["prog"] = [[o[0], o[1], qv(o[2]), o[3]] if o[0] == "upd" else [o[0], o[1], [qv(v) for v in o[2]], o[3]] if o[0] == "bulk" else o
+                    for o in case["prog"]]
+    return case
+
+
+def stream_prog(reg, cap, values, counts=None, q_every=0):
+    prog = [["new", reg, cap]]
+    for i, v in enumerate(values):
+        prog.append(["upd", reg, v, 1 if counts is None else counts[i]])
+        if q_every and (i + 1) % q_every == 0 and i + 1 < len(values):
+            prog.append(["q", reg])
+    prog.append(["q", reg])
+    return prog
+
+
+def hseq_stream_cases(ctx):
+    """Histograms built by nothing but `update()`: every short stream over three values (every order, repeats, a single
+    value, a constant stream) queried after every update; every order of four distinct values; named orders of longer
+    streams (the largest value first, strictly descending, ...) below, at and above the bin limit."""
+    rng = ctx.rng
+    import itertools
+
+    for n in (1, 2, 3):
+        for seq in itertools.product((0, 1, 2), repeat=n):
+            fam = rng.choice(FAMILIES)
+            vals = _scale_values(rng, list(seq) + [0, 2], fam)[:n]
+            for cap in (2, 8):
+                yield as_mode({"kind": "hseq", "mode": "q" if (fam in ("int", "zero-max", "zero-min", "frac") and rng.random() < 0.25) else "f",
+                       "family": "hseq:stream-exhaustive", "grid": 4, "levels": 4,
+                       "prog": stream_prog(0, cap, [int(v) if float(v).is_integer() and rng.random() < 0.3 else v for v in vals], q_every=1)})
+    for perm in itertools.permutations(range(4)):
+        fam = rng.choice(FAMILIES)
+        vals = _scale_values(rng, list(perm), fam)
+        cap = rng.choice([2, 3, 8])
+        yield as_mode({"kind": "hseq", "mode": "f", "family": "hseq:stream-permutation", "grid": 4, "levels": 4,
+               "prog": stream_prog(0, cap, vals, q_every=rng.choice([1, 2]))})
+    for order in ORDERS:
+        for n, cap in ((7, 8), (7, 3), (12, 12), (13, 12), (60, 50), (9, 2), (50, 50), (51, 50)):
+            # exactly at and one past the bin limit: 12 / 13 values at a limit of 12, 50 / 51 at the default 50
+            if n >= 50 and rng.random() < (0.5 if order in ("largest-last", "smallest-first", "zigzag") else 0.25):
+                continue
+            fam = rng.choice(FAMILIES)
+            vals = [_scale_values(rng, list(range(n)), fam)[r] for r in stream_order(rng, n, order)]
+            counts = [rng.choice([1, 1, 1, 2, 5]) for _ in vals] if rng.random() < 0.4 else None
+            yield as_mode({"kind": "hseq", "mode": "q" if (n <= 13 and fam != "wide" and rng.random() < 0.3) else "f", "family": "hseq:stream-" + order,
+                   "grid": rng.choice([4, 16]), "levels": rng.choice([4, 16]),
+                   "prog": stream_prog(0, cap, vals, counts, q_every=rng.choice([0, 0, n // 2 or 1]))})
+    # numeric limits that are legal values: signed zeros, a subnormal next to zero, 2**53 and its neighbours, huge magnitudes
+    for name, vals in (("signed-zero", [0.0, -0.0, 1.0, -0.0]), ("signed-zero", [-0.0, 0.0]), ("subnormal", [5e-324, 0.0, 1.0]), ("subnormal", [1.0, 5e-324]),
+                       ("2**53", [2.0**53, 2.0**53 + 2, 2.0**53 - 1, 0.0]), ("huge", [1e150, -1e150, 0.0, 1e150]), ("huge", [-1e150, -3e149]),
+                       ("tiny-spread", [1.0, 1.0 + 2.0**-52, 1.0 + 2.0**-51])):
+        for cap in (2, 8):
+            yield {"kind": "hseq", "mode": "f", "family": "hseq:stream-limits-" + name, "grid": 8, "levels": 8, "prog": stream_prog(0, cap, vals, q_every=1)}
+    # the documented witness orders
+    yield as_mode({"kind": "hseq", "mode": "f", "family": "hseq:stream-largest-first", "grid": 8, "levels": 8,
+           "prog": stream_prog(0, 8, [9.0, 2.0, 5.0, 7.0, 3.0, 6.0, 4.0])})
+    yield as_mode({"kind": "hseq", "mode": "f", "family": "hseq:stream-constant", "grid": 4, "levels": 4, "prog": stream_prog(0, 8, [5.0] * 4, q_every=1)})
+    yield as_mode({"kind": "hseq", "mode": "f", "family": "hseq:stream-single", "grid": 4, "levels": 4, "prog": stream_prog(0, 50, [0.0])})
+    yield as_mode({"kind": "hseq", "mode": "f", "family": "hseq:stream-single", "grid": 4, "levels": 4, "prog": stream_prog(0, 50, [-7.5], [3])})
+
+
+ADD_PAIRS = [
+    # (left operand's values, right operand's values): the right one above, below, around, inside, equal, overlapping; empties; singles
+    ([10, 12, 13, 15, 16, 18, 19, 20, 11, 14, 17, 20], [0, 3, 7, 22, 25, 31, 36, 40, 40, 2, 29]),
+    ([10, 11, 12, 13], [20, 21, 22]), ([10, 11, 12, 13], [1, 2, 3]), ([10, 11, 12, 13], [11, 12]), ([10, 13], [5, 20]),
+    ([1, 2, 3], [1, 2, 3]), ([0, 5], [3, 9]), ([5], [5]), ([5], [7]), ([7], [5]), ([], [1, 2, 3]), ([1, 2, 3], []), ([], []),
+    ([-4, -2, 0], [-9, 0]), ([0, 1, 2], [-1]), ([3, 2, 1], [9, 8, 7, 6, 5, 4]), ([10, 10, 10, 11], [9.5]), ([2, 4, 6, 8, 10, 12], [13]),
+    # a trimmed left operand (its first centre is right of its minimum) and a right operand just below its minimum
+    ([10, 11, 11, 12, 14, 15, 17, 18, 19], [9.9]),
+    # a right operand that is trimmed at the small bin limit (its extremes are not bin centres) and reaches beyond the left one,
+    # with an extreme of exactly 0 (a falsy bound must still count)
+    ([5, 6], [0, 1, 2, 3, 4, 7, 8, 9, 10]), ([-5, -6], [-9, -8, -7, -4, -3, -2, -1, 0]), ([3], [0, 1, 2, 4, 5, 6, 7, 8]),
+]
+
+
+def add_patterns(a, b, cap, out_lo, out_hi):
+    """Sequences around one `c = a + b`: the operands are asked again afterwards, also after `c` was updated further."""
+    mk = lambda r, vals: [["new", r, cap]] + [["upd", r, float(v), 1] for v in vals]
+    base = mk(0, a) + mk(1, b)
+    return [
+        ("operands-after", base + [["q", 0], ["q", 1], ["add", 2, 0, 1], ["q", 2], ["q", 0], ["q", 1]]),
+        ("operands-after-no-query-before", base + [["add", 2, 0, 1], ["q", 0], ["q", 1], ["q", 2]]),
+        ("reversed", base + [["add", 2, 1, 0], ["q", 1], ["q", 0], ["q", 2]]),
+        ("sum-updated-above", base + [["add", 2, 0, 1], ["upd", 2, float(out_hi), 1], ["q", 0], ["q", 2], ["q", 1]]),
+        ("sum-updated-below", base + [["add", 2, 0, 1], ["upd", 2, float(out_lo), 2], ["q", 2], ["q", 0], ["q", 1]]),
+        ("operand-updated", base + [["add", 2, 0, 1], ["upd", 0, float(out_hi), 1], ["q", 0], ["q", 2], ["upd", 1, float(out_lo), 1], ["q", 1], ["q", 2]]),
+        ("chain", base + mk(3, [out_lo, out_hi]) + [["add", 2, 0, 1], ["add", 4, 2, 3], ["q", 0], ["q", 2], ["q", 4], ["q", 1], ["q", 3]]),
+        ("running", base + mk(3, [out_hi]) + [["add", 0, 0, 1], ["q", 0], ["add", 0, 0, 3], ["q", 0], ["q", 1], ["q", 3]]),
+    ] + ([] if not a else [
+        # a dumped-and-loaded copy is its own object: updating either one must not show in the other
+        ("dump-load-then-update", base + [["q", 0], ["dl", 2, 0], ["upd", 2, float(out_hi), 1], ["q", 0], ["q", 2], ["upd", 0, float(out_lo), 1], ["q", 2], ["q", 0]]),
+        ("dump-load-then-add", base + [["dl", 2, 0], ["add", 3, 2, 1], ["q", 0], ["q", 3], ["q", 2], ["q", 1]]),
+    ])
+
+
+def hseq_add_cases(ctx):
+    rng = ctx.rng
+    for a, b in ADD_PAIRS:
+        allv = [v for v in a + b] or [0]
+        out_lo, out_hi = min(allv) - 3, max(allv) + 2.5
+        for cap in (8, 3):
+            for name, prog in add_patterns(a, b, cap, out_lo, out_hi):
+                if cap == 3 and name in ("operands-after-no-query-before", "running") and rng.random() < 0.5:
+                    continue
+                yield as_mode({"kind": "hseq", "mode": "q" if (rng.random() < 0.15 and all(float(v).is_integer() for v in a + b)) else "f",
+                       "family": "hseq:add-" + name, "grid": 8, "levels": 8, "prog": [list(o) for o in prog]})
+
+
+def hseq_bulk_cases(ctx):
+    """`bulkload` on an object that is asked before and after: below and above the direct-insert threshold (5 x the limit
+    distinct values), onto an empty histogram and onto one that already holds values outside the batch's range; then updated
+    and added further."""
+    rng = ctx.rng
+    for cap, n, span in ((8, 6, 10), (3, 12, 30), (2, 9, 9), (4, 60, 500), (8, 300, 4000), (50, 30, 30)):
+        for where in ("empty", "after-lower", "after-higher", "inside"):
+            kind = rng.choice(["i8", "f8"])
+            off = rng.choice([0, 0, -span, 1000, -7])
+            vals = [float(off + rng.randint(0, span)) for _ in range(n)]
+            if rng.random() < 0.5:
+                vals[rng.randrange(n)] = float(off)  # the batch's minimum is `off` itself (0 in two of five draws)
+            pre = {"empty": [], "after-lower": [min(vals) - 5.0, min(vals) - 2.0], "after-higher": [max(vals) + 1.5, max(vals) + 4.0],
+                   "inside": [min(vals), (min(vals) + max(vals)) / 2]}[where]
+            if kind == "i8":
+                pre = [float(int(v)) for v in pre]
+            prog = [["new", 0, cap]] + [["upd", 0, v, 1] for v in pre] + ([["q", 0]] if pre else []) + [["bulk", 0, vals, kind], ["q", 0]]
+            prog += [["upd", 0, max(vals + pre) + 3.0, 2], ["q", 0], ["new", 1, cap], ["upd", 1, min(vals + pre) - 1.0, 1], ["add", 2, 1, 0], ["q", 2], ["q", 0], ["q", 1]]
+            yield as_mode({"kind": "hseq", "mode": "q" if (len(set(vals)) <= 10 and rng.random() < 0.3) else "f", "family": "hseq:bulk-" + where,
+                           "grid": 8, "levels": 8, "prog": prog})
+
+
+def random_hseq_case(ctx):
+    rng = ctx.rng
+    mode = "f" if rng.random() < 0.8 else "q"
+    fam = rng.choice(["int", "int", "negative", "zero-max", "zero-min", "frac"] + ([] if mode == "q" else ["wide"]))
+    nreg = rng.choice([1, 2, 2, 3])
+    cap = rng.choice([2, 3, 5, 8, 50])
+    pool = _scale_values(rng, list(range(rng.choice([3, 6, 12, 40]))), fam)
+    prog = [["new", r, cap if rng.random() < 0.8 else rng.choice([2, 3, 5, 8])] for r in range(nreg)]
+    names = list(range(nreg))
+    alias = {r: r for r in names}
+    filled = set()
+    for r in names:
+        order = rng.choice(ORDERS)
+        n = rng.choice([0, 1, 1, 2, 3, 5, 9, 20])
+        ranks = stream_order(rng, n, order) if n else []
+        for k in ranks:
+            prog.append(["upd", r, pool[k % len(pool)], rng.choice([1, 1, 1, 2, 4])])
+            filled.add(alias[r])
+    for _ in range(rng.choice([2, 4, 8, 14])):
+        x = rng.random()
+        if x < 0.4:
+            prog.append(["q", rng.choice(names)])
+        elif x < 0.7:
+            r = rng.choice(names)
+            v = rng.choice(pool) if rng.random() < 0.6 else rng.choice([min(pool) - rng.choice([1, 0.5, 100]), max(pool) + rng.choice([1, 0.25, 100])])
+            prog.append(["upd", r, v, rng.choice([1, 1, 3])])
+            filled.add(alias[r])
+        elif x < 0.74:
+            r = rng.choice(names)
+            k = rng.choice([1, 3, 8, 25])
+            vals = [rng.choice(pool) for _ in range(k)]
+            if mode == "q" and len(set(vals)) > 10:
+                continue
+            prog.append(["bulk", r, vals, "f8"])
+            filled.add(alias[r])
+        elif x < 0.8 and max(names) < 7:
+            src = rng.choice(names)
+            if alias[src] not in filled:
+                continue
+            dst = max(names) + 1
+            prog.append(["dl", dst, src])
+            names.append(dst)
+            alias[dst] = 100 + dst
+            filled.add(alias[dst])
+        elif len(names) > 1:
+            a, b = rng.sample(names, 2)
+            if alias[a] == alias[b]:
+                continue
+            if alias[b] in filled:
+                filled.add(alias[a])
+            dst = rng.choice(names + [max(names) + 1]) if max(names) < 7 else rng.choice(names)
+            prog.append(["add", dst, a, b])
+            alias[dst] = alias[a]
+            if dst not in names:
+                names.append(dst)
+    for r in names:
+        prog.append(["q", r])
+    return as_mode({"kind": "hseq", "mode": mode, "family": "hseq:random", "grid": rng.choice([4, 8]), "levels": rng.choice([4, 8]), "prog": prog})
+
+
 BOUNDARY = [
     # left tail of count_at: positive, large and negative centres
     {"kind": "hist", "mode": "f", "family": "boundary", "grid": 16, "levels": 16,
@@ -1022,6 +1629,13 @@ def run(ctx):
             evaluate(ctx, [w])
             ctx.hit("corpus:fixed-finding-witness")
     evaluate(ctx, [dict(c) for c in BOUNDARY])
+    # histogram objects: plain update() streams in every order, judged against the inserted values; operands after a `+`
+    hs = list(hseq_stream_cases(ctx)) + list(hseq_add_cases(ctx)) + list(hseq_bulk_cases(ctx))
+    ctx.note("histogram_object_sequence_cases", len(hs))
+    for i in range(0, len(hs), 80):
+        if ctx.violations:
+            break
+        evaluate(ctx, hs[i : i + 80])
     # sequences first: a case that uses several profile objects is self-contained, so state an implementation shares between
     # objects shows up here as a replay that fails in a fresh process too
     seqs = list(seq_cases(ctx))
@@ -1038,26 +1652,29 @@ def run(ctx):
         evaluate(ctx, list(big_frame_cases(ctx)))
     n_h = ctx.scale(900, 12000)
     n_p = ctx.scale(150, 2500)
-    done_h = done_p = done_s = 0
+    done_h = done_p = done_s = done_o = 0
     while (done_h < n_h or done_p < n_p) and ctx.time_left() > ctx.scale(5, 170) and not ctx.violations:
         cases = [random_hist_case(ctx) for _ in range(60)] if done_h < n_h else []
         done_h += len(cases)
         if done_p < n_p:
-            cases += [random_profile_case(ctx) for _ in range(10)] + [random_pseq_case(ctx) for _ in range(4)]
+            cases += [random_profile_case(ctx) for _ in range(10)] + [random_pseq_case(ctx) for _ in range(4)] + [random_hseq_case(ctx) for _ in range(8)]
             done_p += 10
             done_s += 4
+            done_o += 8
         evaluate(ctx, cases)
     flush_pending(ctx)
     ctx.note("random_histogram_cases", done_h)
     ctx.note("random_profile_cases", done_p)
     ctx.note("random_profile_sequence_cases", done_s)
+    ctx.note("random_histogram_object_sequence_cases", done_o)
 
 
 def intensify(ctx):
     n = 0
     while ctx.time_left() > 5 and n < 2000 and not ctx.violations:
-        evaluate(ctx, [random_hist_case(ctx) for _ in range(50)] + [random_profile_case(ctx) for _ in range(10)] + [random_pseq_case(ctx) for _ in range(10)])
-        n += 70
+        evaluate(ctx, [random_hist_case(ctx) for _ in range(50)] + [random_profile_case(ctx) for _ in range(10)] + [random_pseq_case(ctx) for _ in range(10)]
+                 + [random_hseq_case(ctx) for _ in range(20)])
+        n += 90
     flush_pending(ctx)
 
 
